@@ -99,6 +99,32 @@ sys.exit(1 if bad else 0)
 '''
 
 
+REPLAY_COLS = '''
+# column-restricted reads of valid, old metadata files (columns present in some samples only, or in none): nothing on disk changes
+from vlib import build
+import numpy as np, tempfile, os, shutil, sys, warnings, hashlib, glob
+warnings.simplefilter('ignore')
+drf = build.load_pkg()
+top = tempfile.mkdtemp(); md = os.path.join(top, 'md'); os.makedirs(md)
+w = drf.DigitalMetadataWriter(md, 3600, 60, 1, 1, 'md')
+w.write([1000, 1070, 1130], [{'v': 1, 'extra': 5}, {'v': 2}, {'v': 3}])
+for f in glob.glob(os.path.join(md, '*', '*.h5')): os.utime(f, (1.0, 1.0))          # files much older than one cadence
+def snap(): return {p: hashlib.md5(open(p, 'rb').read()).hexdigest() for p in sorted(glob.glob(os.path.join(md, '**', '*'), recursive=True)) if os.path.isfile(p)}
+s0 = snap(); bad = 0
+r = drf.DigitalMetadataReader(md)
+for cols in (None, 'v', 'extra', 'nosuch', ['v'], ['extra'], ['v', 'nosuch']):
+    for method in (None, 'ffill'):
+        try: r.read(1000, 1200, columns=cols, method=method)
+        except KeyError: pass
+        except Exception as e: print('read(columns=%r) raised' % (cols,), type(e).__name__, e)
+        if snap() != s0:
+            print('read(columns=%r, method=%r) changed the tree: missing' % (cols, method), [os.path.basename(p) for p in s0 if p not in snap()]); bad = 1; s0 = snap()
+if r.get_bounds() != (1000, 1130): print('bounds afterwards', r.get_bounds()); bad = 1
+shutil.rmtree(top)
+sys.exit(1 if bad else 0)
+'''
+
+
 def main(tier):
     rep = common.Report('C20', tier, 'model_checking', functions=FUNCS)
     st = smt.Stats()
@@ -108,7 +134,7 @@ def main(tier):
     res = chx.run_module('meta', names=list(META), per_condition_timeout=T)
     body = lambda kw: REPLAY
     live = lambda kw: REPLAY_LIVE % (kw,)
-    chx.report(rep, res, META, replays=dict({k: body for k in META}, _reader_sees_write=live, _read_latest=live, _bounds=live), sigs={k: 'C20.' + k.strip('_') for k in META})
+    chx.report(rep, res, META, replays=dict({k: body for k in META}, _reader_sees_write=live, _read_latest=live, _bounds=live, _add_metadata_nondestructive=lambda kw: REPLAY_COLS), sigs={k: 'C20.' + k.strip('_') for k in META})
     res = chx.run_module('reader', names=list(READER), per_condition_timeout=T)
     chx.report(rep, res, READER, replays={k: body for k in READER}, sigs={k: 'C20.' + k.strip('_') for k in READER})
     # real-tree validation: reading a valid tree changes nothing; writes are visible to earlier and later readers
